@@ -362,7 +362,7 @@ def _table_sweep_case(case, tier, seed):
             for a in el.isotopes:
                 if (el.number, a) not in in_table:
                     res['claims'] += 1
-                    if not el[a].neutron.has_sld():
+                    if not el[a].neutron.has_sld() and el[a].neutron.sld() == (None, None, None):
                         res['discharged'] += 1
                     else:
                         bad('no_row_no_sld[%s-%d]|%s' % (el.symbol, a, tag), 'has_sld', 'no sld')
